@@ -94,6 +94,13 @@ func sitOf(c *Case, k int) (sit, form, pk string) {
 
 func modelLine(c *Case) string {
 	switch c.Dir {
+	case "retain":
+		// one wrapper value of a declared function, invoked while / after another invocation of it
+		d := c.Depth
+		if c.Mode != "reenter" {
+			d = 1
+		}
+		return fmt.Sprintf("C07 reenter %d 0", d)
 	case "h2s":
 		return fmt.Sprintf("C07 wrap %d %d 0", len(c.Sig.Out), len(c.Sig.In))
 	case "s2h", "meth":
